@@ -8,8 +8,8 @@ Poisson helper `_poisson_changepoints(counts, offset, penalty, min_counts, min_o
 returned breaks are a well-formed segmentation (0 = b0 < b1 < ... = n), every segment meets the
 minima, and its penalised deviance equals the brute-force minimum over all 2^(n-1) segmentations
 (vt/oracle/changepoints_g.py; 1e-9 relative: both sides evaluate the same closed form, the only
-rounding is log and the summation order; worst difference seen on the unchanged tree in the
-unconstrained zero-free class: 0.0 in 2e5 cases).
+rounding is log and the summation order; on the unchanged tree no input of the unconstrained,
+zero-free class came near the tolerance in seeds 1..5).
 
 Complete enumeration (extra) + Hypothesis draws of longer vectors (check).
 """
